@@ -111,7 +111,8 @@ func parseProxyV2(br *bufio.Reader) (*ProxyInfo, error) {
 	if cmd == 0x0 {
 		return &ProxyInfo{Local: true}, nil
 	}
-	family := header[13] & 0x0f
+	// Byte 13 is address family (high nibble) and transport protocol (low nibble).
+	family := header[13] >> 4
 	switch family {
 	case 0x1:
 		return parseProxyV2Inet(payload)
